@@ -130,7 +130,9 @@ theorem splitArray_early_of_strict {data : List Row} {t : Int} {v : List Row × 
 
 theorem split_early_of_strict {c c1 c2 : Chunk} {t : Int} (h : c.split t false = .ok (c1, c2)) :
     c.split t true = .ok (c1, c2) := by
-  rw [Chunk.split_eq] at h ⊢
+  obtain ⟨hnb, h⟩ := Chunk.split_ok_core h
+  rw [Chunk.split_of_not_bad hnb]
+  rw [Chunk.splitCore_eq] at h ⊢
   obtain ⟨v, hv, h⟩ := bind_eq_ok.1 h
   have hv' : splitData c t true = .ok v := by
     unfold splitData at hv ⊢
@@ -489,9 +491,11 @@ theorem doCompute_multi_good {fs : List (String × String × (List Row → List 
     ∃ (outD crD : Dict Chunk) (ci : Chunk) (s' : Int) (Qo Qc D2 S2' : List Row),
       doCompute (specN fs (wl, wr) rid) ⟨optDict kind old, crd, s⟩ [(kind, X)] = .ok (outD, ⟨[(kind, ci)], crD, s'⟩) ∧
       keys outD = fs.map (·.1) ∧
-      (∀ k ∈ fs.map (·.1), ∃ c, dictGet outD k = some c ∧ c.rows = ctxMap wl wr (G k) (S2 ++ P ++ X.rows) Qo) ∧
+      (∀ k ∈ fs.map (·.1), ∃ c, dictGet outD k = some c ∧ c.rows = ctxMap wl wr (G k) (S2 ++ P ++ X.rows) Qo ∧
+        (∀ a, ((old = none ∧ a = X.start) ∨ (old ≠ none ∧ a = s)) → c.start = a) ∧ c.stop = s' ∧ c.start ≤ c.stop) ∧
       (keys crD).Nodup ∧ (∀ x ∈ keys crD, x ∈ fs.map (·.1)) ∧
-      (∀ k ∈ fs.map (·.1), ∃ c, dictGet crD k = some c ∧ c.rows = ctxMap wl wr (G k) (S2 ++ P ++ X.rows) Qc) ∧
+      (∀ k ∈ fs.map (·.1), ∃ c, dictGet crD k = some c ∧ c.rows = ctxMap wl wr (G k) (S2 ++ P ++ X.rows) Qc ∧
+        c.start = s' ∧ c.stop = X.stop ∧ c.start ≤ c.stop) ∧
       P ++ X.rows = Qo ++ Qc ∧
       (∀ r ∈ Qo, r.endt ≤ X.stop - 2 * wr - 1) ∧ (∀ r ∈ Qo ++ Qc, s ≤ r.time) ∧
       ci.good = true ∧ ci.dataType = X.dataType ∧ ci.runId = some rid ∧ ci.stop = X.stop ∧
@@ -499,7 +503,7 @@ theorem doCompute_multi_good {fs : List (String × String × (List Row → List 
       S2 ++ Qo = D2 ++ S2' ∧ ci.rows = S2' ++ Qc ∧
       (∀ n ∈ D2, n.endt ≤ s' - 2 * wl - 1) ∧ (∀ r ∈ S2', r.endt ≤ s') ∧ (∀ r ∈ Qc, s' ≤ r.time) := by
   -- the splits of the input itself: the single-output step of the identity
-  obtain ⟨out, cr, ci, Qo, Qc, D2, S2', -, hQ, hout, hcr, hQof, hQs, hcig, hcid, hcir, hcie, hci1, hci2, hss,
+  obtain ⟨out, cr, ci, Qo, Qc, D2, S2', hstepId, hQ, hout, hcr, hQof, hQs, hcig, hcid, hcir, hcie, hci1, hci2, hss,
     hK1, hK2, hD2, hS2', hQc, I, r0, R', i0, hI, hIg, hIrows, hIrid, hIsub, hIsup, hRg, hs1, hR'g, hs2, hs3⟩ :=
     step1_good_ex (g := fun r _ => r) (f := fIdent) (wl := wl) (wr := wr) (fun _ _ => ⟨rfl, rfl⟩)
       (fun rows _ => by simp [fIdent, perRow]) hwl hwr hX hXr hold hS2 hP
@@ -508,7 +512,7 @@ theorem doCompute_multi_good {fs : List (String × String × (List Row → List 
   rw [hpid] at hRg hs1
   -- facts about the halves
   obtain ⟨t1, -, -, -, -, -, hr0e, hR's, hR'e, -, -, -, hR'rid, -⟩ := split_good' hRg hs1
-  obtain ⟨t2, -, -, -, -, hos, hoe, hcs, hce, -⟩ := split_good' hR'g hs2
+  obtain ⟨t2, ht2a, ht2b, -, -, hos, hoe, hcs, hce, -⟩ := split_good' hR'g hs2
   simp only at hR'e hR'rid
   have hidem := split_idem hR'g hs2
   -- the output families
@@ -568,7 +572,9 @@ theorem doCompute_multi_good {fs : List (String × String × (List Row → List 
     simp only [List.isEmpty_cons, Bool.false_eq_true, if_false, hpre]
     simp only [List.map, uniqueB_single, Bool.not_true, Bool.false_eq_true, if_false]
     rw [show (specN fs (wl, wr) rid).wl = wl from rfl, show (specN fs (wl, wr) rid).wr = wr from rfl,
-      show (specN fs (wl, wr) rid).multi = true from rfl]
+      show (specN fs (wl, wr) rid).multi = true from rfl, show (specN fs (wl, wr) rid).declOK = true from rfl,
+      show (specN fs (wl, wr) rid).signCheck = true from rfl]
+    simp only [Bool.not_true, Bool.false_or, Bool.true_and]
     have hw : ¬ ((decide (wl < 0) || decide (wr < 0)) = true) := by
       simp only [Bool.or_eq_true, decide_eq_true_eq, not_or, Int.not_lt]; exact ⟨hwl, hwr⟩
     rw [if_neg hw, baseCompute_specN hnd hG hIg hIsub hIsup]
@@ -585,14 +591,39 @@ theorem doCompute_multi_good {fs : List (String × String × (List Row → List 
       | Except.ok (_, cachedIn) => Except.ok _) = _
     rw [cacheBeyond_single 9 kind I _ _ (by cases old <;> simp [optDict]), hs3]
   · intro k hkm
-    refine ⟨O k, ?_, ?_⟩
+    refine ⟨O k, ?_, ?_, ?_, ?_, ?_⟩
     · apply dictGet_of_mem
       · rw [keys_map_names]; exact hnd
       · exact List.mem_map.2 ⟨k, hkm, rfl⟩
     · simp only [O, plainChunk, hout, ctxMap, hIrows, hk]
+    · intro a ha
+      have hXse : X.start ≤ X.stop := by
+        have hX' := hX
+        simp only [Chunk.good, Bool.and_eq_true] at hX'
+        exact ((Chunk.wf_iff X).1 hX'.1).2.1
+      have hpre : (old = none ∧ s ≤ X.start ∧ a = X.start) ∨ (∃ o, old = some o ∧ o.start ≤ s ∧ s ≤ o.stop ∧ a = s) := by
+        rcases hold with ⟨h1, -, -, h4⟩ | ⟨o, h1, -, -, -, -, -, h7, h8⟩
+        · rcases ha with ⟨-, ha⟩ | ⟨hne', -⟩
+          · exact Or.inl ⟨h1, h4, ha⟩
+          · exact absurd h1 hne'
+        · rcases ha with ⟨hn, -⟩ | ⟨-, ha⟩
+          · rw [h1] at hn; cases hn
+          · exact Or.inr ⟨o, h1, h7, h8, ha⟩
+      obtain ⟨r1, -⟩ := step1_ranges hXse hpre hstepId
+      simp only [O, plainChunk]
+      rw [← hos]; exact r1
+    · simp only [O, plainChunk, hoe, hcs]
+    · simp only [O, plainChunk]
+      rw [hoe]; exact ht2a
   · intro k hkm
-    refine ⟨V k, g2 k hkm, ?_⟩
-    simp only [V, plainChunk, hcr, ctxMap, hIrows, hk]
+    refine ⟨V k, g2 k hkm, ?_, ?_, ?_, ?_⟩
+    · simp only [V, plainChunk, hcr, ctxMap, hIrows, hk]
+    · simp only [V, plainChunk, hoe, hcs]
+    · simp only [V, plainChunk]
+      obtain ⟨_, -, -, -, -, -, -, -, hie, -⟩ := split_good' hIg hs3
+      rw [hR'e, ← hie, hcie]
+    · simp only [V, plainChunk]
+      rw [hoe]; exact ht2b
 
 /-! ## the run of a multi-output plugin -/
 
@@ -611,16 +642,18 @@ theorem iterLoop_multi_whole {fs : List (String × String × (List Row → List 
     T = Dtot ++ (S2 ++ P ++ buf.rows) ++ allRows rest →
     (∀ n ∈ Dtot, n.endt ≤ s - 2 * wl - 1) →
     ((keys crd).Nodup ∧ ∀ x ∈ keys crd, x ∈ fs.map (·.1)) →
+    ∀ a0 : Int, ((old = none ∧ a0 = buf.start) ∨ (old ≠ none ∧ a0 = s)) →
     ∃ outs st',
       iterLoop (specN fs (wl, wr) rid) kind ⟨optDict kind old, crd, s⟩ buf rest = .ok (outs, st') ∧
       outs.length = rest.length + 1 ∧
       ∀ k ∈ fs.map (·.1), ∃ cs cr, outs.map (fun d => dictGet d k) = cs.map some ∧
         dictGet st'.cachedResults k = some cr ∧
-        allRows cs ++ cr.rows = ctxMap wl wr (G k) T (P ++ buf.rows ++ allRows rest) := by
+        allRows cs ++ cr.rows = ctxMap wl wr (G k) T (P ++ buf.rows ++ allRows rest) ∧
+        Tiles a0 (lastStop buf rest) (cs ++ [cr]) := by
   intro rest
   induction rest with
   | nil =>
-    intro old crd s buf Dtot S2 P hbg hbr hbd hrest hchain hold hS2 hP hT hD hcrd
+    intro old crd s buf Dtot S2 P hbg hbr hbd hrest hchain hold hS2 hP hT hD hcrd a0 ha0
     have hbg' := hbg
     simp only [Chunk.good, Bool.and_eq_true] at hbg'
     obtain ⟨-, bse, -, -, -⟩ := (Chunk.wf_iff buf).1 hbg'.1
@@ -639,9 +672,12 @@ theorem iterLoop_multi_whole {fs : List (String × String × (List Row → List 
       simp only [hsp, hstep, b3]
       rfl
     · intro k hk
-      obtain ⟨co, hco, hcor⟩ := hout k hk
-      obtain ⟨cc, hcc, hccr⟩ := hcr k hk
-      refine ⟨[co], cc, by simp [hco], hcc, ?_⟩
+      obtain ⟨co, hco, hcor, hcoa, hcoe, hcole⟩ := hout k hk
+      obtain ⟨cc, hcc, hccr, hccs, hcce, hccle⟩ := hcr k hk
+      refine ⟨[co], cc, by simp [hco], hcc, ?_, ?_⟩
+      rotate_left
+      · simp only [List.cons_append, List.nil_append, Tiles, lastStop]
+        exact ⟨hcoa a0 (by rw [i1]; exact ha0), hcole, by rw [hcoe, hccs], hccle, by rw [hcce, i2]⟩
       simp only [allRows, List.flatMap_cons, List.flatMap_nil, List.append_nil]
       rw [hcor, hccr, ← ctxMap_append, ← hQ]
       apply ctxMap_congr
@@ -655,7 +691,7 @@ theorem iterLoop_multi_whole {fs : List (String × String × (List Row → List 
         omega) (by simp)
       simpa using this.symm
   | cons c rest ih =>
-    intro old crd s buf Dtot S2 P hbg hbr hbd hrest hchain hold hS2 hP hT hD hcrd
+    intro old crd s buf Dtot S2 P hbg hbr hbd hrest hchain hold hS2 hP hT hD hcrd a0 ha0
     have hbg' := hbg
     simp only [Chunk.good, Bool.and_eq_true] at hbg'
     obtain ⟨-, bse, -, -, -⟩ := (Chunk.wf_iff buf).1 hbg'.1
@@ -693,16 +729,22 @@ theorem iterLoop_multi_whole {fs : List (String × String × (List Row → List 
         rcases List.mem_append.1 hn with h | h
         · have := hD n h; omega
         · exact hD2 n h)
-      ⟨hcn, hcs⟩
+      ⟨hcn, hcs⟩ s' (Or.inr ⟨by simp, rfl⟩)
     refine ⟨outD :: outs2, st2, ?_, by simp [hlen], ?_⟩
     · unfold iterLoop
       simp only [hsp, hstep, hcat]
       have hrec' : iterLoop (specN fs (wl, wr) rid) kind ⟨[(kind, ci)], crD, s'⟩ _ rest = .ok (outs2, st2) := hrec
       rw [hrec']
     · intro k hk
-      obtain ⟨co, hco, hcor⟩ := hout k hk
-      obtain ⟨cs2, crf, hcs2, hcrf, hrows⟩ := hper k hk
-      refine ⟨co :: cs2, crf, by simp [hco, hcs2], hcrf, ?_⟩
+      obtain ⟨co, hco, hcor, hcoa, hcoe, hcole⟩ := hout k hk
+      obtain ⟨cs2, crf, hcs2, hcrf, hrows, htiles⟩ := hper k hk
+      refine ⟨co :: cs2, crf, by simp [hco, hcs2], hcrf, ?_, ?_⟩
+      rotate_left
+      · simp only [List.cons_append, Tiles, lastStop]
+        refine ⟨hcoa a0 (by rw [i1]; exact ha0), hcole, ?_⟩
+        rw [hcoe, lastStop_congr c _ rest (by rfl : c.stop = (⟨buf'.dataType, buf'.kind, some rid, buf'.start, c.stop,
+          buf'.rows ++ c.rows, none, [⟨rid, buf'.start, c.stop⟩], max buf'.target c.target⟩ : Chunk).stop)]
+        exact htiles
       rw [allRows_cons, List.append_assoc, hrows, b3, allRows_cons]
       simp only [List.nil_append]
       have hout' : co.rows = ctxMap wl wr (G k) T Qo := by
@@ -737,20 +779,21 @@ theorem runOverlapMulti_whole {fs : List (String × String × (List Row → List
     (hG : ∀ p ∈ fs, Keeps (G p.1) ∧ ∀ rows, PositiveRows rows → p.2.2 rows = perRow wl wr (G p.1) rows)
     (hwl : 0 ≤ wl) (hwr : 0 ≤ wr) {cs : List Chunk} (hs : Stream cs) :
     ∃ ds, runOverlapMulti fs (wl, wr) cs = .ok ds ∧ ds.length = cs.length + 1 ∧
-      ∀ p ∈ fs, (outputOf p.1 ds).length = ds.length ∧ allRows (outputOf p.1 ds) = p.2.2 (allRows cs) := by
+      ∀ p ∈ fs, (outputOf p.1 ds).length = ds.length ∧ allRows (outputOf p.1 ds) = p.2.2 (allRows cs) ∧
+        ∃ c0 cl, cs.head? = some c0 ∧ cs.getLast? = some cl ∧ Tiles c0.start cl.stop (outputOf p.1 ds) := by
   obtain ⟨c, rest, rid, rfl, hrid, hall, hchain, h0⟩ := stream_parts hs
   obtain ⟨hcg, -, -⟩ := hall c (by simp)
   obtain ⟨outs, st', hloop, hlen, hper⟩ :=
     iterLoop_multi_whole hne hnd hG hwl hwr rid c.kind c.dataType (allRows (c :: rest)) rest none [] 0 c [] [] []
       hcg hrid rfl (fun c' hc' => hall c' (by simp [hc'])) hchain (Or.inl ⟨rfl, rfl, rfl, h0⟩)
-      (by simp) (by simp) (by simp [allRows_cons]) (by simp) ⟨by simp [keys], by simp [keys]⟩
+      (by simp) (by simp) (by simp [allRows_cons]) (by simp) ⟨by simp [keys], by simp [keys]⟩ c.start (Or.inl ⟨rfl, rfl⟩)
   refine ⟨outs ++ [st'.cachedResults], ?_, by simp [hlen], ?_⟩
   · unfold runOverlapMulti
     simp only [hrid, runDicts]
     have hloop' : iterLoop (specN fs (wl, wr) rid) c.kind State.init c rest = .ok (outs, st') := hloop
     rw [hloop']
   · intro p hp
-    obtain ⟨ocs, cr, h1, h2, hrows⟩ := hper p.1 (List.mem_map.2 ⟨p, hp, rfl⟩)
+    obtain ⟨ocs, cr, h1, h2, hrows, htiles⟩ := hper p.1 (List.mem_map.2 ⟨p, hp, rfl⟩)
     have hfm : outputOf p.1 (outs ++ [st'.cachedResults]) = ocs ++ [cr] := by
       simp only [outputOf, List.filterMap_append, List.filterMap_cons, h2, List.filterMap_nil]
       congr 1
@@ -768,11 +811,16 @@ theorem runOverlapMulti_whole {fs : List (String × String × (List Row → List
       have hg' := (hall c' hc').1
       simp only [Chunk.good, Bool.and_eq_true] at hg'
       exact ((Chunk.wf_iff c').1 hg'.1).2.2.2.1 r hr'
-    refine ⟨by rw [hfm]; simp [hl], ?_⟩
-    rw [hfm]
-    have : allRows (ocs ++ [cr]) = allRows ocs ++ cr.rows := by simp [allRows]
-    rw [this, hrows, (hG p hp).2 _ hposT, perRow_eq_ctxMap, allRows_cons]
-    simp
+    obtain ⟨cl, hcl⟩ : ∃ cl, (c :: rest).getLast? = some cl := by
+      cases hl' : (c :: rest).getLast? with
+      | none => simp at hl'
+      | some cl => exact ⟨cl, rfl⟩
+    refine ⟨by rw [hfm]; simp [hl], ?_, c, cl, rfl, hcl, ?_⟩
+    · rw [hfm]
+      have : allRows (ocs ++ [cr]) = allRows ocs ++ cr.rows := by simp [allRows]
+      rw [this, hrows, (hG p hp).2 _ hposT, perRow_eq_ctxMap, allRows_cons]
+      simp
+    · rw [hfm, ← lastStop_spec c rest cl hcl]; exact htiles
 
 /-- kernels for all outputs at once, indexed by the output's name -/
 theorem kernels_by_name {fs : List (String × String × (List Row → List Row))} {wl wr : Int}
